@@ -25,6 +25,9 @@ def run(ctx):
     cfg = "FileReader_quick.cfg" if ctx.tier == "quick" else "FileReader_thorough.cfg"
     res = ctx.tlc_expect_ok("FileReader", cfg, timeout=1500, deadlock=False)
     cases = res.printed
+    mm = ctx.tlc("FileReader", "FileReader_mut_maint.cfg", timeout=600, deadlock=False, name="FileReader/mutant (maintenance forgets the held-back tail)")
+    if mm.ok:
+        raise vlib.Infra("spec mutant M_MaintenanceKeepsTail of FileReader is not rejected")
     ctx.tlc_expect_ok("WorkerTails", "WorkerTails_ok.cfg", timeout=300, deadlock=False, name="WorkerTails/faithful")
     mut = ctx.tlc("WorkerTails", "WorkerTails_mut.cfg", timeout=300, deadlock=False, name="WorkerTails/mutant (tail aliases the worker's buffer)")
     if mut.ok or mut.violated != "TailsIntact":
